@@ -257,8 +257,7 @@ class Engine:
     def sym_value(self, q: str) -> V:
         if q in S.GLOBALS:
             return self._global_const(q, S.GLOBALS[q])
-        cname = q.split(":")[1]
-        if cname in S.CLASSES and S.CLASSES[cname].qual == q:
+        if S.class_by_qual(q) is not None:
             return V(CLASSV, py=q)
         return V(STATIC, py=q)
 
@@ -535,6 +534,10 @@ class Engine:
                 yield from self.null_guard(st, base, attr, line, lambda s: iter([(s, self.wf(s, s.get_field(base, attr)))]))
                 return
             mk = S.find_method(base.ty.name, attr)
+            cs0 = S.CLASSES.get(base.ty.name)
+            if not mk and cs0 is not None and any(c.qual == cs0.qual + "." + attr for c in S.CLASSES.values()):
+                yield st, self.sym_value(cs0.qual + "." + attr)       # a class nested in the receiver's class
+                return
             if mk or (is_listlike(base.ty) or is_dictlike(base.ty)):
                 yield st, V(BOUND, py=(base, attr))
                 return
@@ -880,8 +883,8 @@ class Engine:
                     raise Unsupported("break/continue escaping a nested function")
 
     def construct(self, st, q, args, kwargs, n, starv=None, dstarv=None):
-        cname = q.split(":")[1]
-        cs = S.CLASSES[cname]
+        cs = S.class_by_qual(q)
+        cname = cs.name
         obj = st.new_ref(OBJ(cname))
         if cs.listlike:
             st.list_set(obj, z3.Empty(z3.SeqSort(sort_of(cs.listlike))))
@@ -1046,6 +1049,9 @@ class Engine:
         for arg, d in zip(a.kwonlyargs, a.kw_defaults):
             if arg.arg == p and d is not None:
                 return self.const_default(d)
+        d = getattr(c, "defaults", {}).get(p)      # e.g. the real function takes **kw and forwards it
+        if d is not None and a.kwarg is not None:
+            return self.const_default(ast.parse(d, mode="eval").body)
         return None
 
     def const_default(self, d):
@@ -1396,7 +1402,7 @@ class Engine:
                 for st3, present in self.branch(st2, z3.Select(dom, k.t)):
                     if present:
                         d3, v3 = st3.dict_get(base)
-                        st3.dict_set(base, z3.Store(d3, k.t, False), v3)
+                        st3.dict_set(base, ops.card_store_facts(st3, d3, k.t, False), v3)
                         yield "next", st3, None
                     else:
                         yield "raise", st3, Exc(KeyError, origin="del line %d" % s.lineno)
@@ -1523,7 +1529,7 @@ class Engine:
                     kt, vt = dict_tys(base.ty)
                     dom, val = st2.dict_get(base)
                     k = coerce(idx, kt)
-                    st2.dict_set(base, z3.Store(dom, k.t, True), z3.Store(val, k.t, coerce(v, vt).t))
+                    st2.dict_set(base, ops.card_store_facts(st2, dom, k.t, True), z3.Store(val, k.t, coerce(v, vt).t))
                     yield "next", st2, None
                     continue
                 if is_listlike(base.ty) and not isinstance(target.slice, ast.Slice):
@@ -1683,9 +1689,13 @@ class Engine:
         yield st, False, exc
 
     def ex_With(self, s, st):
-        """`with cm:` for context managers whose contract declares them transparent: __enter__/__exit__
-        change nothing the contracts talk about and never swallow exceptions (stated in the contract's
-        note); the manager expression is evaluated (its contract applies), then the body runs."""
+        """`with cm [as v]:`
+        (a) context managers whose contract declares them transparent: __enter__/__exit__ change nothing
+            the contracts talk about and never swallow exceptions; the body just runs;
+        (b) managers that are objects of a class with contracts on __enter__ and __exit__: desugared as
+            v = cm.__enter__(); body; cm.__exit__(...) on every exit of the body (normal, return, break,
+            continue, exception).  __exit__ is taken never to swallow an exception (its contract must not
+            say otherwise); an exception it raises itself replaces the pending outcome."""
         def go(i, st):
             if i == len(s.items):
                 yield from self.ex(s.body, st)
@@ -1693,12 +1703,36 @@ class Engine:
             item = s.items[i]
             r = self.resolve_static(item.context_expr.func, st) if isinstance(item.context_expr, ast.Call) else None
             key = r[1] if r and r[0] == "sym" else None
-            if key is None or key not in S.CONTRACTS or not getattr(S.CONTRACTS[key], "transparent_cm", False):
-                raise Unsupported("with statement over %s at line %d (no transparent context-manager contract)" % (key, s.lineno))
-            # arguments may be lambdas etc.: they are not evaluated by a transparent manager's contract
-            if item.optional_vars is not None:
-                raise Unsupported("with ... as target")
-            yield from go(i + 1, st)
+            ck = (S.VIEWS.get(key) or S.CONTRACTS.get(key)) if key else None
+            if ck is not None and getattr(ck, "transparent_cm", False):
+                # arguments may be lambdas etc.: they are not evaluated by a transparent manager's contract
+                if item.optional_vars is not None:
+                    raise Unsupported("with ... as target over a transparent manager")
+                yield from go(i + 1, st)
+                return
+            for st1, cm in self.ev(item.context_expr, st):
+                if isinstance(cm, Raised):
+                    yield "raise", st1, cm.exc
+                    continue
+                if cm.ty.kind != "obj" or not S.find_method(cm.ty.name, "__enter__") or not S.find_method(cm.ty.name, "__exit__"):
+                    raise Unsupported("with statement over %s at line %d (no context-manager contract)" % (key or cm.ty, s.lineno))
+                for st2, ent in self.call_method(st1, cm, "__enter__", [], {}, s):
+                    if isinstance(ent, Raised):
+                        yield "raise", st2, ent.exc
+                        continue
+                    if item.optional_vars is not None:
+                        if not isinstance(item.optional_vars, ast.Name):
+                            raise Unsupported("with ... as <pattern>")
+                        st2.env[item.optional_vars.id] = ent
+                    for kind, st3, payload in go(i + 1, st2):
+                        none = next(self.ev_Constant(ast.Constant(None), None))[1]
+                        saved = st3.cur_exc
+                        for st4, ex in self.call_method(st3, cm, "__exit__", [none, none, none], {}, s):
+                            st4.cur_exc = saved
+                            if isinstance(ex, Raised):
+                                yield "raise", st4, ex.exc
+                            else:
+                                yield kind, st4, payload
         yield from go(0, st)
 
     def ex_Break(self, s, st):
